@@ -167,6 +167,60 @@ func ruleErrState(p *Prog, r *RuleResult) {
 			r.fail(fmt.Sprintf("%s#use-of-skipped-result.%s", fname, fv.Name()), p.IPos(i), "the data of a task result is used without first filtering skipped blocks: bytes of a block outside the requested range (or stale bytes) would be delivered")
 		}
 	})
+	// decoded-size guard: a result whose size exceeds the declared block size is refused before its bytes are copied
+	// (Reader.Read indexes the buffers with consumed %% blockSize, so a larger block corrupts the cursor arithmetic)
+	guardOK := false
+	for _, b := range f.Blocks {
+		ifi := blockIf(b)
+		if ifi == nil {
+			continue
+		}
+		atom, pos := condAtom(ifi.Cond)
+		bo, ok := atom.(*ssa.BinOp)
+		if !ok {
+			continue
+		}
+		op := bo.Op
+		x, y := bo.X, bo.Y
+		if fieldVarOfLoad(y) == decodedF {
+			x, y = y, x
+			op = mirrorOp(op)
+		}
+		if fieldVarOfLoad(x) != decodedF {
+			continue
+		}
+		fy := fieldVarOfLoad(y)
+		if fy == nil || fy.Name() != "blockSize" {
+			continue
+		}
+		var tooBig *ssa.BasicBlock
+		switch op {
+		case token.GTR:
+			tooBig = b.Succs[succFor(pos, true)]
+		case token.LEQ:
+			tooBig = b.Succs[succFor(pos, false)]
+		default:
+			continue
+		}
+		allErr := true
+		for rb := range reach(tooBig, nil, nil) {
+			if ret, ok := rb.Instrs[len(rb.Instrs)-1].(*ssa.Return); ok && rb != f.Recover {
+				if retMayBeNil(ret, len(ret.Results)-1) {
+					allErr = false
+				}
+			}
+		}
+		if allErr {
+			guardOK = true
+			r.ok(fname+": a result larger than the declared block size is refused with an error", p.IPos(ifi))
+		}
+	}
+	if !guardOK {
+		r.fail(fname+"#decoded-size-guard", p.Pos(f.Pos()), "the decoded size of a block is not checked against the declared block size (field blockSize) before it is delivered: a forged stream makes Read index past the buffers it allocated (panic in the caller's goroutine) or deliver misplaced bytes")
+	}
+	// a task error found in the result scan is always returned: every return reachable from the err != nil edge
+	// carries a non-nil error (no break/continue that falls through to a success return)
+	errEdgeReturnsError(p, r, f, s.errField)
 	if nuse > 0 && len(r.Findings) == 0 || nuse > 0 {
 		r.ok(fmt.Sprintf("%s: %d uses of result data, all behind the skipped filter", fname, nuse), p.Pos(f.Pos()))
 	}
@@ -671,4 +725,49 @@ func derivesFromWiden(v ssa.Value, target ssa.Value, d int) bool {
 		}
 	}
 	return false
+}
+
+// errEdgeReturnsError: in the result scan of a processBlock, the non-nil edge of the test of a task's error leads
+// only to returns that carry a non-nil error.
+func errEdgeReturnsError(p *Prog, r *RuleResult, f *ssa.Function, errField *types.Var) {
+	fname := p.FnName(f)
+	n := 0
+	for _, b := range f.Blocks {
+		ifi := blockIf(b)
+		if ifi == nil {
+			continue
+		}
+		x, succ, ok := nilTest(ifi.Cond)
+		if !ok || fieldVarOfLoad(x) != errField {
+			continue
+		}
+		n++
+		bad := false
+		for rb := range reach(b.Succs[succ], nil, nil) {
+			if rb == f.Recover {
+				continue
+			}
+			if ret, ok := rb.Instrs[len(rb.Instrs)-1].(*ssa.Return); ok {
+				ev := ret.Results[len(ret.Results)-1]
+				nonNil := !mayBeNil(ev, 0)
+				if !nonNil {
+					// returning the tested value itself on its non-nil edge
+					if stripConv(ev) == x || fieldVarOfLoad(stripConv(ev)) == errField {
+						nonNil = true
+					}
+				}
+				if !nonNil {
+					bad = true
+					r.fail(fname+"#task-error-swallowed", p.IPos(ret), "after a task reported an error, processBlock can still return without an error (the failed block's error is dropped; the caller sees a short success and then a clean end of stream)")
+					break
+				}
+			}
+		}
+		if !bad {
+			r.ok(fname+": the err != nil edge of the result scan reaches only error returns", p.IPos(ifi))
+		}
+	}
+	if n == 0 {
+		r.fail(fname+"#task-error-test", p.Pos(f.Pos()), "processBlock never tests the error of a task result")
+	}
 }
